@@ -518,11 +518,14 @@ impl tracing::Subscriber for Capture {
         !TRACE_OFF.load(std::sync::atomic::Ordering::Relaxed)
     }
     fn new_span(&self, _s: &tracing::span::Attributes<'_>) -> tracing::span::Id {
+        crate::tsched::trace_point();
         tracing::span::Id::from_u64(1)
     }
     fn record(&self, _s: &tracing::span::Id, _v: &tracing::span::Record<'_>) {}
     fn record_follows_from(&self, _s: &tracing::span::Id, _f: &tracing::span::Id) {}
     fn event(&self, event: &tracing::Event<'_>) {
+        // tsched: every tracing event emitted by a scheduled OS thread is a scheduling point
+        crate::tsched::trace_point();
         let level = *event.metadata().level();
         if level > tracing::Level::WARN {
             return; // info/debug/trace chatter is not part of the observable behaviour
@@ -571,8 +574,12 @@ impl tracing::Subscriber for Capture {
             });
         }
     }
-    fn enter(&self, _s: &tracing::span::Id) {}
-    fn exit(&self, _s: &tracing::span::Id) {}
+    fn enter(&self, _s: &tracing::span::Id) {
+        crate::tsched::trace_point();
+    }
+    fn exit(&self, _s: &tracing::span::Id) {
+        crate::tsched::trace_point();
+    }
 }
 
 #[derive(Debug, Clone, serde::Serialize, serde::Deserialize, PartialEq)]
